@@ -240,6 +240,9 @@ def tool_cli_case(rng, tool):
             "out": rng.choice([None, None, None, "out.json", "out.yaml", "out.toml", "out", "o.yml", "out.txt", "sub.d/out.json"])}
     if opts["out"] and "/" in opts["out"]:
         layout["sub.d/keep.txt"] = {"raw": "x"}
+    elif opts["out"] and rng.random() < 0.4:
+        # the output file exists already and is LONGER than what will be written: afterwards it holds exactly the new output
+        layout[opts["out"]] = {"raw": "".join("stale_key_%d: [1, 2, 3]\n" % i for i in range(300))}
     return {"layout": layout, "opts": opts, "tool": tool}
 
 
